@@ -1394,3 +1394,38 @@ def rule_binder_requirements(ctx):
         ctx.check(got == {want[v]}, rule, "term:%s:binder" % v, "the printer renders the binder of `%s` with %s, the grammar reads `%s` there "
                   "(parser.lalrpop): the printed form does not re-parse, or keeps parentheses the position does not need"
                   % (v, sorted(got) or "(no pattern printer found)", want[v]), [loc[0], a["ln"]], detail={"former": v, "printer": sorted(got), "grammar": want[v]})
+
+
+def rule_text_block_line_start(ctx):
+    rule = "text-block-line-start"
+    facts = ctx.facts
+    ctx.rule(rule, "a `--|` text block always starts a line of its own (with_comments puts `ensure_line_start` in front of it). What stands "
+                   "in front of one therefore ends its line in the printer's own decision, not by the forced break: (a) "
+                   "retained_placement answers Broken for a boundary whose following entity starts with a text block, whatever the "
+                   "source shows; (b) a comment in front of a text block is separated by a line break, not by the same-line separator. "
+                   "Otherwise the first run leaves a separator before the forced break (a trailing blank, wrong indentation) and the "
+                   "second run, which reads a broken boundary, prints something else")
+    fn = FORMATTER + "retained_placement"
+    h = ctx.need_hir(rule, fn)
+    if h is not None:
+        ok = False
+        for x in H.walk(h["body"]):
+            if H.kind(x) != "If":
+                continue
+            env = A.ArmEnv(); env.strip = True; env.bind_params(h); env.absorb(h["body"])
+            cond = A.sexpr(x.get("c") or {}, env)
+            broken = any(H.kind(y) == "Path" and str((y.get("res") or {}).get("def") or "").endswith("BoundaryPlacement::Broken") for y in H.walk(x.get("t") or {}))
+            if broken and "as_text" in cond and "following" in cond and "leading_comments" in cond:
+                ok = True
+        ctx.check(ok, rule, "retained_placement:broken-before-text-block", "retained_placement does not answer Broken when the entity after the "
+                  "boundary starts with a text block (leading_comments(following).first().as_text())", facts.bodies()[fn]["loc"])
+    fn = FORMATTER + "with_comments"
+    h = ctx.need_hir(rule, fn)
+    if h is not None:
+        texts = [x for x in H.walk(h["body"]) if H.kind(x) == "MethodCall" and x["name"] == "as_text"]
+        nextline = any(H.kind(y) == "Path" and str((y.get("res") or {}).get("def") or "").endswith("LineSeparation::NextLine") for y in H.walk(h["body"]))
+        looks_ahead = any(H.kind(x) == "MethodCall" and x["name"] == "get" and any(H.kind(y) == "Binary" and y.get("op") == "Add" for y in H.walk(x["args"][0]))
+                          for x in H.walk(h["body"]))
+        ctx.check(len(texts) >= 2 and nextline and looks_ahead, rule, "with_comments:comment-before-text-block", "with_comments does not turn the "
+                  "same-line separation after a comment into a line break when the NEXT comment is a text block (as_text calls: %d, "
+                  "NextLine: %s, look-ahead: %s)" % (len(texts), nextline, looks_ahead), facts.bodies()[fn]["loc"])
